@@ -278,7 +278,7 @@ Proof.
   - destruct H as [H1 [_ [_ H4]]]. apply blen_0 in H1. subst offs. rewrite last_or0_nil in H4.
     cbn [wf_ty] in Hwt. now rewrite (IH d Hwt H4).
   - destruct H as [H1 [_ H3]]. apply blen_0 in H1. subst nulls.
-    cbn [wf_ty] in Hwt. apply andb_true_iff in Hwt as [Hwt _]. now rewrite (IH d Hwt H3).
+    cbn [wf_ty] in Hwt. now rewrite (IH d Hwt H3).
   - destruct H as [H1 [_ H3]]. apply blen_0 in H1. subst vals.
     cbn in H3. unfold of_rows in H3. cbn in H3. now injection H3 as <- <- <-.
   - destruct H as [H1 [_ [_ [H4 H5]]]]. apply blen_0 in H1. subst offs. rewrite last_or0_nil in H4, H5.
@@ -774,7 +774,7 @@ Proof.
     rewrite <- app_assoc, <- Hl, dec_fix_enc by now apply offs_bound.
     rewrite Hm. cbn [negb]. rewrite to_i64_small', check_rows_ok by assumption.
     rewrite IH by assumption. reflexivity.
-  - (* Nullable *) destruct Hd as [Hl [Hnulls Hd]]. cbn [wf_ty] in Hwt. apply andb_true_iff in Hwt as [Hwt _].
+  - (* Nullable *) destruct Hd as [Hl [Hnulls Hd]]. cbn [wf_ty] in Hwt.
     cbn [dec enc]. unfold bind. rewrite <- app_assoc.
     rewrite <- (concat_le_put_1 nulls Hnulls) at 1. rewrite <- (enc_fix_eq Safe 1 nulls).
     rewrite <- Hl at 1. rewrite dec_fix_enc by exact Hnulls.
